@@ -37,6 +37,9 @@ RNext ==
        \/ SyncDone(p) /\ Lbl("SyncDone", p, -1, "")
        \/ Close(p) /\ Lbl("Close", p, -1, "")
        \/ pc[p] \in {"open", "synced"} /\ Crash(p) /\ Lbl("Drop", p, -1, "")
+       \* Close called once more on a handle that is already closed (a deferred Close next to an explicit one): a stuttering
+       \* step of WhisperFile - it must not touch whoever holds the file now (the descriptor NUMBER may have been reused)
+       \/ pc[p] = "idle" /\ sess[p] >= 1 /\ UNCHANGED vars /\ Lbl("CloseAgain", p, -1, "")
   \/ FlipHeader /\ Lbl("FlipHeader", "", -1, "")
 
 RSpec == RInit /\ [][RNext]_rvars
